@@ -24,7 +24,7 @@ TECHNIQUE = 'symbolic execution of the real sampling code with exp/log as uninte
 FUNCTIONS_ENCODED = ['MPSBaseQtz.sample_alpha_sm/sample_alpha_gs/sample_alpha_none/update_softmax_options', 'MPSPerLayerQtz/MPSPerChannelQtz.__init__/forward', 'STEArgmax.forward',
                      'torch.nn.functional.softmax / gumbel_softmax / one_hot (as decomposed by torch)', 'SuperNetCombiner.sample_alpha_sm/sample_alpha_gs/best_layer_index/summary',
                      'MPSConv2d/MPSLinear.selected_*_precision/summary/export (model instance)']
-BOUNDS = {'quick': 'per-layer alpha length 1..4, per-channel 2x2 and 3x2, combiner 2..4 branches; temperature symbolic in [0.05,20]; all flag combinations; one MPS model (Conv2d-ReLU-flatten-Linear, precisions (2,4,8)/(4,8))',
+BOUNDS = {'quick': 'per-layer alpha length 1..4, per-channel 2x2 and 3x2, combiner 2..4 branches; temperature symbolic in [0.05,20]; all flag combinations; one MPS model (Conv2d-ReLU-flatten-Linear, precisions (2,4,8)/(4,8)); whole MPS model with summary()/export() before the forward pass, per-layer and per-channel, coefficients written into an evaluated model, independent arg-max oracle on the raw coefficients; combiner re-sampled after its coefficients are updated (through .data / in place)',
           'thorough': 'per-layer length 1..8, per-channel up to 3x4 / 4x3 / 8x2, combiner 2..8 branches, option-update sequences of length 2 before the forward pass'}
 OUTSIDE = ['per-channel matrices larger than the bound (the sampling code is column-wise independent; not proved here)', 'ties between coefficients (gap < 0.05)', 'float32 softmax underflow at temperature 0.05 with gaps > 4.4 (reals have no underflow)']
 ASSUMPTIONS = ['pairwise gaps between competing coefficients >= 0.05 (no ties)', 'exp, log: arbitrary strictly increasing functions, exp > 0, exp(0) = 1, log(1) = 0', 'Gumbel noise: arbitrary reals (exponential_ stub returns arbitrary positives)']
